@@ -140,6 +140,17 @@ class InitStreamAndLinalgMemorySpace(RewritePattern):
         if not operands_to_memory_cast:
             return
 
+        def is_available_at(cast_op: Operation, user: Operation) -> bool:
+            # a previous cast can only be reused if it is defined before the user in the same
+            # block or in an enclosing one (e.g. not inside a loop body the user is outside of)
+            block = cast_op.parent_block()
+            ancestor: Operation | None = user
+            while ancestor is not None and ancestor.parent_block() is not block:
+                ancestor = ancestor.parent_op()
+            if ancestor is None or block is None:
+                return False
+            return block.get_operation_index(cast_op) < block.get_operation_index(ancestor)
+
         def get_cast_op(operand: SSAValue) -> memref.MemorySpaceCastOp:
             # cast required: find previous cast or create new one
             cast_op = None
@@ -148,6 +159,7 @@ class InitStreamAndLinalgMemorySpace(RewritePattern):
                     isinstance(use.operation, memref.MemorySpaceCastOp)
                     and isinstance(use_type := use.operation.dest.type, builtin.MemRefType)
                     and use_type.memory_space == L1.attribute
+                    and is_available_at(use.operation, op)
                 ):
                     cast_op = use.operation
                     break
